@@ -175,6 +175,19 @@ impl Repo {
                 self.git(&["add", "tracked.txt"], None).unwrap();
                 std::fs::write(self.dir.join("tracked.txt"), "tracked\n").unwrap();
             }
+            // the file's stat data no longer match the index but its content is unchanged: nothing is modified
+            "touched" => {
+                let f = std::fs::OpenOptions::new().write(true).open(self.dir.join("tracked.txt")).unwrap();
+                f.set_modified(std::time::UNIX_EPOCH + std::time::Duration::from_secs(978_307_200)).unwrap();
+            }
+            "rewritten-same" => {
+                let p = self.dir.join("tracked.txt");
+                let content = std::fs::read(&p).unwrap();
+                std::fs::remove_file(&p).unwrap();          // a new inode with the same bytes (edit, then undo)
+                std::fs::write(&p, content).unwrap();
+                let f = std::fs::OpenOptions::new().write(true).open(&p).unwrap();
+                f.set_modified(std::time::UNIX_EPOCH + std::time::Duration::from_secs(1_234_567_890)).unwrap();
+            }
             _ => {}
         }
     }
@@ -295,7 +308,7 @@ fn flow_out(repo: &Repo, fmt: &str) -> Option<String> {
     }
 }
 
-const KINDS: &[&str] = &["clean", "modified", "staged", "untracked", "ignored", "deleted", "staged-deletion", "untracked-nested", "empty-dir", "staged-then-reverted"];
+const KINDS: &[&str] = &["clean", "modified", "staged", "untracked", "ignored", "deleted", "staged-deletion", "untracked-nested", "empty-dir", "staged-then-reverted", "touched", "rewritten-same"];
 
 fn expected_dirty(kind: &str) -> bool {
     matches!(kind, "modified" | "staged" | "untracked" | "deleted" | "staged-deletion" | "untracked-nested" | "staged-then-reverted")
@@ -398,7 +411,7 @@ pub fn replay(args: &[String]) {
         // the work-tree kinds under one format each
         // (the first four kinds for every repository, one of the others in turn)
         let extra = 5 + text.len() % (KINDS.len() - 5);
-        for (i, kind) in KINDS.iter().enumerate().skip(1).filter(|(i, _)| *i < 5 || *i == extra) {
+        for (i, kind) in KINDS.iter().enumerate().skip(1).filter(|(i, k)| *i < 5 || *i == extra || **k == "touched") {
             let fmt = ["auto", "semver", "pep440"][(text.len() + i) % 3];
             repo.touch(kind);
             obs.push((fmt, kind.to_string(), observe(&repo, fmt)));
@@ -516,7 +529,7 @@ pub fn record(args: &[String]) {
                     }
                 }
                 _ => {
-                    let kind = KINDS[[0, 0, 0, 0, 1, 2, 3, 4, 5, 6, 7, 8, 9][rng.gen_range(0..13)]];
+                    let kind = KINDS[[0, 0, 0, 0, 1, 2, 3, 4, 5, 6, 7, 8, 9, 10, 11][rng.gen_range(0..15)]];
                     repo.touch(kind);
                     let o = observe(&repo, fmt);
                     repo.restore();
